@@ -60,6 +60,13 @@ def main() -> None:
             tab2 = list(ta.t.symbol_table.get_sym_table())
             dec2 = [(tab2[int(a)], tab2[int(b)]) for a, b in zip(ta.t.traces[r0]["name"], ta.t.traces[r0]["cat"])]
             out["growOk"] = bool(tab2[:len(tab1)] == tab1 and dec1 == dec2)
+            # ... then all the other ranks parsed in ONE further call (sequentially or by the pool): still append-only, rank r0 still decodes
+            rest = [r for r in sorted(ta.t.trace_files) if r != r0]
+            ta.t.parse_multiple_ranks(rest, use_multiprocessing=mp and len(rest) > 1)
+            tab3 = list(ta.t.symbol_table.get_sym_table())
+            dec3 = [(tab3[int(a)] if int(a) < len(tab3) else None, tab3[int(b)] if int(b) < len(tab3) else None)
+                    for a, b in zip(ta.t.traces[r0]["name"], ta.t.traces[r0]["cat"])]
+            out["growOk"] = bool(out["growOk"] and tab3[:len(tab2)] == tab2 and dec1 == dec3)
             ta.t.is_parsed = False
             ta.t.load_traces(use_multiprocessing=mp)
         elif hist == "decoy":
